@@ -7,10 +7,25 @@ from .core import CaseTimeout, time_limit
 from .graphs import GDef, drain_events
 
 
-def make_stop(gd: GDef, graph, spec, trace):
-    """Python twin of the driver's stop specifications. `trace` records (call index, layer size)."""
+def make_stop(gd: GDef, graph, spec, trace, flavour="bool"):
+    """Python twin of the driver's stop specifications. `trace` records (call index, layer size).  `flavour`: the type in
+    which the callback reports its decision (Python bool, 0-dim torch tensor as from torch.any, numpy.bool_, a count)."""
     if spec is None or spec[0] == "none":
         return None
+    inner = _make_stop(gd, graph, spec, trace)
+    if flavour == "bool":
+        return inner
+
+    def cb(layer2, layer2_hashes):
+        import numpy as np
+
+        res = bool(inner(layer2, layer2_hashes))
+        return torch.tensor(res) if flavour == "torch" else np.bool_(res) if flavour == "numpy" else (3 if res else 0)
+
+    return cb
+
+
+def _make_stop(gd: GDef, graph, spec, trace):
     kind = spec[0]
     cnt = [0]
 
@@ -37,25 +52,25 @@ def stop_to_line(spec):
     return " ".join(str(x) for x in spec)
 
 
-def run_impl(gd: GDef, cfg: dict, opts: dict, starts=None, stop=None, limit_s=60):
+def run_impl(gd: GDef, cfg: dict, opts: dict, starts=None, stop=None, limit_s=60, flavour="bool"):
     """Runs the real BFS. Returns canonical dict (or {'error': repr}).  A timeout is retried once with a much longer
     limit (a loaded machine or a tiny batch size on a big orbit is slow, not wrong); only a second timeout is reported."""
-    out = _run_impl(gd, cfg, opts, starts, stop, limit_s)
+    out = _run_impl(gd, cfg, opts, starts, stop, limit_s, flavour)
     if "error" in out and out["error"].startswith("Timeout"):
-        out = _run_impl(gd, cfg, opts, starts, stop, limit_s * 4 + 60)
+        out = _run_impl(gd, cfg, opts, starts, stop, limit_s * 4 + 60, flavour)
         if "error" not in out:
             out["slow"] = True
     return out
 
 
-def _run_impl(gd: GDef, cfg: dict, opts: dict, starts=None, stop=None, limit_s=60):
+def _run_impl(gd: GDef, cfg: dict, opts: dict, starts=None, stop=None, limit_s=60, flavour="bool"):
     drain_events()
     try:
         with time_limit(limit_s):
             graph = gd.graph(**cfg)
             trace = []
             kw = dict(opts)
-            cb = make_stop(gd, graph, stop, trace)
+            cb = make_stop(gd, graph, stop, trace, flavour)
             if cb is not None:
                 kw["stop_condition"] = cb
             if starts is not None:
